@@ -46,6 +46,22 @@ def handle : Handler
     let vs ← (Note.splitList vs).mapM Note.verifierSpec
     let known ← Note.knownOf mode (vs.map (·.1))
     pure (showOpenG (Open b64decI isSpaceI (2 * msg.length + 16) msg (knownG known)))
+  | "sign", [text, sigs, unv, signers] => do
+    let text ← hx text
+    let sigs ← (Note.splitList sigs).mapM Note.sigSpec
+    let unv ← (Note.splitList unv).mapM Note.sigSpec
+    let signers ← (Note.splitList signers).mapM Note.signerSpec
+    let gsig : ModVerif.Note.Signature → Signature := fun s => { Name := s.name, Hash := Int.ofNat s.hash.toNat, Base64 := s.base64 }
+    let gsigner : ModVerif.Note.Signer → Signer := fun s =>
+      { Name := s.name, KeyHash := Int.ofNat s.hash.toNat,
+        Sign := fun m => match s.sign m with | some b => (b, none) | none => ([], some "sign failed") }
+    let n : Note := { Text := text, Sigs := sigs.map gsig, UnverifiedSigs := unv.map gsig }
+    let total := text.length + ((sigs ++ unv).map fun s => s.name.length + s.base64.length).sum + (signers.map fun s => s.name.length).sum
+    pure (match Sign b64decI ModVerif.B64.b64enc isSpaceI (4 * total + 64) n (signers.map gsigner) with
+      | .ok (m, none) => xh m
+      | .ok (_, some e) =>
+        if e == "errMalformedNote" then "err:malformed" else if e == "errInvalidSigner" then "err:invalidsigner" else "err:signfailed"
+      | .error e => e.toString)
   | "isvalidname", [a] => do let a ← hx a; pure (showBool (isValidName isSpaceI a))
   | "chop", [a, sep] => do
     let a ← hx a; let sep ← hx sep
